@@ -86,7 +86,8 @@ CompactSound == \A ix \in Indices :
 (* Replay export.  One record per path: the private child and the public      *)
 (* child, each as a one-step term over the fields of the parent (named by the *)
 (* parent's path; "P" + path for the public-only chain), and the 74-byte      *)
-(* serialisations over the key's own fields.                                  *)
+(* serialisations over the key's own fields; and the last index spelt as the  *)
+(* BIP's single child number with the outcomes that spelling may have.        *)
 NamePrv(p) == <<"prv", p>>
 NamePub(p) == <<"pub", p>>
 Emit == LET ix == Last(path') IN
@@ -94,6 +95,7 @@ Emit == LET ix == Last(path') IN
                  prv |-> CKDpriv(Lift(NamePrv(path), x), ix),
                  pub |-> IF y = Refused \/ ix.h THEN [refused |-> TRUE] ELSE CKDpub(Lift(NamePub(path), y), ix),
                  pubrefused |-> (y = Refused \/ ix.h),
+                 number |-> [be |-> ChildNumberBytes(ix), may |-> NumberSpellingOutcomes(ix)],
                  ser |-> [prv |-> Ser74(Lift(NamePrv(path'), x'), TRUE),
                           pub |-> Ser74(Lift(NamePrv(path'), x'), FALSE)]]))
 EmitRoot == PrintT(ToJson([k |-> "root", prv |-> Master(Seed),
